@@ -31,7 +31,7 @@ func (o *Obj) Touch() bool {
 	o.epoch = epoch
 	nextObj++
 	o.id = nextObj
-	o.HB = uint64(o.id) * 0x9e3779b97f4a7c15
+	o.HB = 0 // purely causal: identity comes from the history of the threads touching it
 	return true
 }
 
@@ -145,6 +145,9 @@ type Config struct {
 	MaxClock  int
 	Trace     bool
 	StartTime time.Time
+	// Visit, if set, is asked at every choice point beyond the prefix whether the
+	// state (happens-before key) was already expanded with at most this cost; true prunes.
+	Visit func(key uint64, cost int) bool
 }
 
 type Result struct {
@@ -161,6 +164,7 @@ type Result struct {
 	ClockFires int
 	HBFinal    uint64
 	Conflicts  int // points where >1 real thread was enabled
+	Pruned     bool
 }
 
 type TimerEnt struct {
@@ -168,6 +172,8 @@ type TimerEnt struct {
 	seq    uint64
 	fire   func(r *Run)
 	active bool
+	obj    *Obj
+	run    *Run
 }
 
 type Run struct {
@@ -186,6 +192,8 @@ type Run struct {
 	parkSeq  uint64
 	noted    []interface{}
 	clockT   *Thread
+	clockObj Obj
+	cost     int
 	// Locals lets harness-level helpers keep per-run state.
 	Locals map[string]interface{}
 }
@@ -477,6 +485,7 @@ func (r *Run) reschedule(self *Thread) {
 		}
 		c := 0
 		if len(alts) > 1 {
+			r.current = self
 			c = r.choose(PointRec{N: len(alts), Kind: 's', RunEnabled: selfEnabled, ClockIdx: clockIdx})
 			if c < 0 {
 				r.end(self)
@@ -503,6 +512,12 @@ func (r *Run) choose(p PointRec) int {
 	p.FP = r.fp
 	p.Step = r.res.Steps
 	c := 0
+	if i >= len(r.cfg.Prefix) && r.cfg.Visit != nil {
+		if r.cfg.Visit(r.stateKey(), r.cost) {
+			r.res.Pruned = true
+			return -1
+		}
+	}
 	if i < len(r.cfg.Prefix) {
 		c = r.cfg.Prefix[i]
 		if c < 0 || c >= p.N {
@@ -515,8 +530,45 @@ func (r *Run) choose(p PointRec) int {
 		}
 	}
 	p.Chosen = c
+	r.cost += p.Cost(c)
 	r.res.Points = append(r.res.Points, p)
 	return c
+}
+
+// stateKey identifies the Mazurkiewicz trace executed so far: the vector of
+// per-thread happens-before hashes (by stable thread id), the clock's, and the
+// thread holding the baton.
+func (r *Run) stateKey() uint64 {
+	k := mix(r.clockObj.HB, 0x51ed)
+	for _, t := range r.threads {
+		// commutative combination: thread creation order may differ between equivalent interleavings
+		k += mix(hashStr(t.ID()), t.hb) * 0x9e3779b97f4a7c15
+		if t.done {
+			k += mix(hashStr(t.ID()), 0xd0e)
+		}
+	}
+	if r.current != nil {
+		k = mix(k, hashStr(r.current.ID()))
+	}
+	return k
+}
+
+// TouchHB records, without a scheduling point, that the running thread read or
+// wrote the given objects (timer arming, harness bookkeeping).
+func (r *Run) TouchHB(kind string, objs ...*Obj) {
+	t := r.current
+	if t == nil {
+		return
+	}
+	h := mix(t.hb, hashStr(kind))
+	for _, o := range objs {
+		o.Touch()
+		h = mix(h, o.HB)
+	}
+	for _, o := range objs {
+		o.HB = h
+	}
+	t.hb = h
 }
 
 // Choose asks the explorer for a data choice in [0,n). fault marks non-default
@@ -578,15 +630,23 @@ func (r *Run) clockArmed() bool {
 	return false
 }
 
-func (r *Run) Now() time.Time { return r.now }
+// Now reads the virtual clock (a tracked read of the clock object).
+func (r *Run) Now() time.Time {
+	if r.current != nil {
+		r.clockObj.Touch()
+		r.current.hb = mix(r.current.hb, mix(r.clockObj.HB, 0x90))
+	}
+	return r.now
+}
 
 // AddTimer arms a deadline; fire runs in scheduler context (must not block).
-func (r *Run) AddTimer(d time.Duration, fire func(r *Run)) *TimerEnt {
+func (r *Run) AddTimer(d time.Duration, obj *Obj, fire func(r *Run)) *TimerEnt {
 	if d < 0 {
 		d = 0
 	}
 	r.timerSeq++
-	e := &TimerEnt{when: r.now.Add(d), seq: r.timerSeq, fire: fire, active: true}
+	r.TouchHB("timer.arm", obj, &r.clockObj)
+	e := &TimerEnt{when: r.now.Add(d), seq: r.timerSeq, fire: fire, active: true, obj: obj, run: r}
 	r.timers = append(r.timers, e)
 	return e
 }
@@ -598,6 +658,9 @@ func (e *TimerEnt) Disarm() bool {
 	}
 	was := e.active
 	e.active = false
+	if e.run == cur && cur != nil && !cur.aborting {
+		cur.TouchHB("timer.disarm", e.obj, &cur.clockObj)
+	}
 	return was
 }
 
@@ -633,6 +696,17 @@ func (r *Run) fireClock() {
 		return due[i].seq < due[j].seq
 	})
 	r.fp = mix(r.fp, hashStr("clock"))
+	r.clockObj.Touch()
+	h := mix(r.clockObj.HB, 0xf1e)
+	for _, e := range due {
+		e.obj.Touch()
+		h = mix(h, e.obj.HB)
+	}
+	r.clockObj.HB = h
+	for _, e := range due {
+		e.obj.HB = h
+	}
+	r.clockT.hb = h
 	if r.cfg.Trace {
 		r.res.Trace = append(r.res.Trace, TraceEv{T: "clock", Op: "fire", Note: fmt.Sprintf("now=+%v n=%d", r.now.Sub(baseTime), len(due))})
 	}
@@ -649,7 +723,8 @@ func (r *Run) SpawnFromClock(fn func()) {
 	p := r.clockT
 	path := append(append([]int{}, p.Path...), p.nspawn)
 	p.nspawn++
-	r.newThread(path, fn)
+	t := r.newThread(path, fn)
+	t.hb = mix(t.hb, p.hb)
 }
 
 // Fail lets harness code abort the current execution with a recorded panic-like failure.
@@ -698,12 +773,42 @@ func ExternalObj(ch <-chan struct{}) *Obj {
 	return o
 }
 
-// WithCancel is context.WithCancel whose cancellation is a visible event.
+type ctxNode struct {
+	obj      *Obj
+	children []*ctxNode
+}
+
+var ctxNodes = map[<-chan struct{}]*ctxNode{}
+var ctxEpoch uint64
+
+func (n *ctxNode) descendants(out []*Obj) []*Obj {
+	for _, c := range n.children {
+		out = append(out, c.obj)
+		out = c.descendants(out)
+	}
+	return out
+}
+
+// WithCancel is context.WithCancel whose cancellation is a visible event on the
+// Done channels of the context and of every context derived from it through WithCancel.
 func WithCancel(parent context.Context) (context.Context, context.CancelFunc) {
 	ctx, cancel := context.WithCancel(parent)
+	if cur == nil {
+		return ctx, cancel
+	}
+	if ctxEpoch != epoch {
+		ctxNodes, ctxEpoch = map[<-chan struct{}]*ctxNode{}, epoch
+	}
+	n := &ctxNode{obj: ExternalObj(ctx.Done())}
+	ctxNodes[ctx.Done()] = n
+	if pd := parent.Done(); pd != nil {
+		if pn := ctxNodes[pd]; pn != nil {
+			pn.children = append(pn.children, n)
+		}
+	}
 	return ctx, func() {
 		if r := Cur(); r != nil {
-			r.Point(Op{Kind: "ctx.cancel", Obj: ExternalObj(ctx.Done())})
+			r.Point(Op{Kind: "ctx.cancel", Obj: n.obj, More: n.descendants(nil)})
 		}
 		cancel()
 	}
@@ -716,3 +821,6 @@ func Quiesce() {
 		r.Point(Op{Kind: "quiesce", Quiesce: true})
 	}
 }
+
+// NowRaw reads the virtual clock from scheduler context (timer delivery).
+func (r *Run) NowRaw() time.Time { return r.now }
